@@ -33,7 +33,7 @@ func init() {
 			"when the SAN extension is overridden (ExtraExtensions or Attributes) the parsed SAN fields are compared with the overriding bytes' content, not with the template's SAN fields",
 			"RevocationList.AuthorityKeyId is not in the statement's list; what the parser puts there is counted, the created extension itself is checked through Go's parser",
 			"Go's crypto/x509 ParseCertificateRequest / ParseRevocationList are the differential parsers",
-			"times to the second in UTC",
+			"times to the second in UTC; on the wire in Zulu form (RFC 5280 5.1.2.4-6, 'force revocation times to UTC' in CreateCRL), checked on the bytes",
 		},
 	}, runC05)
 }
@@ -544,6 +544,18 @@ func runCRLCase(c *core.Ctx, r *rand.Rand, id string) {
 			}
 		}
 	}
+	// RFC 5280 5.1.2.4-5.1.2.6 (and the "force revocation times to UTC" comment in CreateCRL): times are written in
+	// Zulu form, UTCTime through 2049 and GeneralizedTime from 2050. Checked on the bytes with the monitor's own writer,
+	// because both parsers accept a zone offset and would hide it.
+	if !bytes.Contains(der, cat(derTime(now), derTime(expiry))) {
+		viol("encoding:update-times-not-utc-zulu", "thisUpdate/nextUpdate are not encoded as %x %x", derTime(now), derTime(expiry))
+	}
+	for i, w := range revoked {
+		if !bytes.Contains(der, cat(derInt(w.SerialNumber), derTime(w.RevocationTime))) {
+			viol("encoding:revocation-time-not-utc-zulu", "entry %d: serial %x is not followed by %x", i, w.SerialNumber, derTime(w.RevocationTime))
+			break
+		}
+	}
 	// authority key id extension iff the issuer has a SKID
 	akiWant := []byte(nil)
 	if len(issuer.SubjectKeyId) > 0 {
@@ -797,6 +809,15 @@ func runRLCase(c *core.Ctx, r *rand.Rand, id string) {
 			}
 		}
 	}
+	if !bytes.Contains(der, cat(derTime(t.ThisUpdate), derTime(t.NextUpdate))) {
+		viol("encoding:update-times-not-utc-zulu", "thisUpdate/nextUpdate are not encoded as %x %x", derTime(t.ThisUpdate), derTime(t.NextUpdate))
+	}
+	for i, w := range t.RevokedCertificates {
+		if !bytes.Contains(der, cat(derInt(w.SerialNumber), derTime(w.RevocationTime))) {
+			viol("encoding:revocation-time-not-utc-zulu", "entry %d: serial %x is not followed by %x", i, w.SerialNumber, derTime(w.RevocationTime))
+			break
+		}
+	}
 	// list extensions: AKI, CRL number, then the extras verbatim
 	if len(got.Extensions) != 2+len(t.ExtraExtensions) {
 		viol("Extensions", "want %d list extensions got %v", 2+len(t.ExtraExtensions), extListDesc(got.Extensions))
@@ -921,5 +942,3 @@ func runRLRejections(c *core.Ctx) {
 		c.Count("rl_documented_rejections_observed", 1)
 	}
 }
-
-
